@@ -364,6 +364,34 @@ def rule4_edges(ctx, m, a, s):
                    'totals by kind are sums over all contracted nodes plus the explicit edges (an assignment keeps only the last node)',
                    loc=st.loc, detail=expr_str(ce, st.ops[0]))
     ctx.ob('C18.4', 'dr_calc_edges accumulates from contracted nodes and explicit edges', n_acc >= 3, 'three accumulation sites', loc=ce.loc)
+    # the table the sums start from is cleared in full: kinds x (workers + 1) x (workers + 1), the extra row/column being the
+    # "more than one worker" bucket every multi-worker contracted node is charged to
+    if len(arr) == 1:
+        zs = [st for st in ce.order if st.op == 'store' and ce.strip(ce.ap(st.ops[1]).root) == arr[0].id and const_int(st.ops[0]) == 0]
+        okz = False
+        detail = ''
+        if len(zs) == 1:
+            li = ce.loop_of_block(zs[0].block.id)
+            bounds = []
+            while li is not None and li >= 0:
+                L = ce.loops[li]
+                for ic in ce.order:
+                    if ic.op == 'icmp' and ic.pred in ('slt', 'ult') and ic.block.id == L['header']:
+                        c_ = const_int(ic.ops[1])
+                        if c_ is not None:
+                            bounds.append(('const', c_))
+                        else:
+                            dd = lib.affine_diff(ce, ic.ops[1], {'c': 0, 'w': 64})
+                            nwl = lib.load_terms(ce, dd, 'dr_pi_dag.num_workers')
+                            if len(nwl) == 1 and dd[nwl[0]] == 1 and len(dd) <= 2:
+                                bounds.append(('nw', dd.get('', 0)))
+                li = L['parent']
+            kmax = ctx.need_enum(en, 'dr_dag_edge_kind_max')
+            okz = sorted(bounds, key=str) == sorted([('const', kmax), ('nw', 1), ('nw', 1)], key=str)
+            detail = str(bounds)
+        ctx.ob('C18.4', 'dr_calc_edges clears the whole kinds x (nw+1) x (nw+1) table', okz,
+               'a row or column left uncleared adds whatever the allocator returned to the totals of the multi-worker bucket', loc=ce.loc,
+               detail=detail)
     ctx.floor('C18.4', 28)
     rule5_sections(ctx)
 
@@ -549,6 +577,8 @@ MUTANTS = [
      'edits': [('src/profiler/dr_dump.c', "dr_pi_dag_node * t = dr_pi_dag_node_first(x + 1, G);", "dr_pi_dag_node * t = dr_pi_dag_node_first(x, G);")]},
     {'name': 'end edge overwritten by the next edge (sweep M0090)', 'expect': 'C18.4',
      'edits': [('src/profiler/dr_dump.c', "\t      dr_pi_dag_add_edge(e, E_lim, dr_dag_edge_kind_end, w - T, t - T);\n\t      e++;", "\t      dr_pi_dag_add_edge(e, E_lim, dr_dag_edge_kind_end, w - T, t - T);")]},
+    {'name': 'edge table cleared for nw instead of nw + 1 workers (sweep M0009)', 'expect': 'C18.4',
+     'edits': [('src/profiler/gen_stat.c', "    for (i = 0; i < nw + 1; i++) {\n      for (j = 0; j < nw + 1; j++) {\n\tEDGE_COUNTS(k,i,j) = 0;", "    for (i = 0; i < nw; i++) {\n      for (j = 0; j < nw + 1; j++) {\n\tEDGE_COUNTS(k,i,j) = 0;")]},
     {'name': 'edge counts of created tasks dropped', 'expect': 'C18.3',
      'edits': [(INL, "            for (k = 0; k < dr_dag_edge_kind_max; k++) {\n              s->info.logical_edge_counts[k] += c->info.logical_edge_counts[k];\n            }\n", "")]},
 ]
